@@ -52,23 +52,46 @@
 (* HSpec - HISTORIES on ONE object (cfg Strain_hist_q / _hist_t /          *)
 (*         _map_t / _map_asis): the strain API is asked repeatedly while   *)
 (*         the object is changed in between.  The law is the same in both  *)
-(*         kinds: EVERY ANSWER IS THE EXACT TENSOR OF THE CURRENT STATE.   *)
-(*   kind "grain"  ImageD11/grain.py:59-64 set_ubi/clear_cache, :148-206   *)
-(*       eps_*; finite_strain.py:46-139 one DeformationGradientTensor      *)
+(*         kinds: EVERY ANSWER IS THE EXACT TENSOR OF THE CURRENT STATE    *)
+(*         SEEN FROM THE REFERENCE GIVEN IN THE REQUEST - not from what    *)
+(*         the objects carry besides (ref_unitcell of a grain, the phases  *)
+(*         dictionary next to an explicit dzero_unitcell map, names,       *)
+(*         filled caches), not from what was asked before.                 *)
+(*   kind "grain"  ImageD11/grain.py:59-80 set_ubi/clear_cache (drops the  *)
+(*       carried ref_unitcell too), :148-206 eps_*, :208-222 ref_unitcell  *)
+(*       setter; finite_strain.py:46-139 one DeformationGradientTensor     *)
 (*       object with its _svd/_vrs caches (:62-83)                         *)
 (*     state  hst = [base = <<L0, U0b>>, s, q (stretch / rotation the      *)
-(*            grain object holds now: ubi = L0.U0b^T.s.q^T), ur            *)
-(*            (orientation of the reference grain object), rid (identity   *)
-(*            of that object), hd / dgt (is there a                        *)
-(*            DeformationGradientTensor object / the snapshot it was built *)
-(*            from)]                                                       *)
+(*            grain object holds now: ubi = L0.U0b^T.s.q^T), ur, rs        *)
+(*            (orientation and cell scale of the reference grain object:   *)
+(*            its ubi is rs.L0.ur^T), rid (identity of that object),       *)
+(*            gd, rd (DECORATION: scale k of the cell k.L0 of the          *)
+(*            ref_unitcell the grain / the reference grain CARRIES, NONE   *)
+(*            when it carries none - never an argument of a request),      *)
+(*            hd / dgt (is there a DeformationGradientTensor object / the  *)
+(*            snapshot it was built from)]                                 *)
+(*     The reference of a request is an ARGUMENT: the cell k.L0 (any k in  *)
+(*     HSCALES, chosen per request) or the reference grain object.  Seen   *)
+(*     from the reference k.L0 the same grain has the stretch s/k and the  *)
+(*     same rotation, so the answer is the tensor of s/k - whatever cell   *)
+(*     the objects carry, whatever was asked before.                       *)
 (*     actions SetUbi (grain.set_ubi), ChangeRef (a new reference grain    *)
-(*            object, or set_ubi on the reference grain in place),         *)
-(*            AskRef / AskLab (m2, reference = cell | grain) = eps_grain*  *)
-(*            / eps_sample*, MakeDGT(arg kinds), AskDGTRef / AskDGTLab,    *)
-(*            ReadDGT (F, U, VRS).  F = q.s.Q, Q = U0b (cell) | U0b.ur^T.  *)
-(*     invariants HAnswersCurrent (code path on the current state = the    *)
-(*            property's tensor: Q^T.E(s).Q / q.E(s).q^T), HPolarOK        *)
+(*            object, or set_ubi on the reference grain in place; another  *)
+(*            orientation and / or another cell scale), Decorate (who,k):  *)
+(*            g.ref_unitcell = unitcell(k.L0) on the grain or on the       *)
+(*            reference grain (what indexing.do_index(unitcell=..) and the *)
+(*            dataset loaders do), equal to or different from the          *)
+(*            reference of the next request, before or after the first     *)
+(*            request; Touch (read a cached property / set a bookkeeping   *)
+(*            attribute), AskRef / AskLab / AskRefG / AskLabG (m2,         *)
+(*            reference = cell k | the reference grain) = eps_grain* /     *)
+(*            eps_sample*, MakeDGT(arg kinds, k),                          *)
+(*            AskDGTRef / AskDGTLab, ReadDGT (F, U, VRS).                  *)
+(*            F = q.(s/k).Q, Q = U0b (cell) | U0b.ur^T.                    *)
+(*     invariants HAnswersCurrent (code path on the current state and the  *)
+(*            reference GIVEN = the property's tensor:                     *)
+(*            Q^T.E(s/k).Q / q.E(s/k).q^T; gd, rd do not occur in it),     *)
+(*            HPolarOK, HDecorTracked (set_ubi drops what is carried)      *)
 (*   kind "map"    ImageD11/sinograms/tensor_map.py:581-635 (item / add_map*)
 (*       / UBI setter, clear_cache), :749-840 (dzero_unitcell, eps_sample, *)
 (*       eps_crystal, eps_hydro, eps_devia with their caches in self.maps) *)
@@ -81,16 +104,25 @@
 (*     state  hst = [cur (UBI version held now), first (which of           *)
 (*            eps_sample / eps_crystal was computed first since the last   *)
 (*            assignment: the other one is then derived by rotation),      *)
-(*            cache (the code AS IT IS: clear_cache keeps the eps maps),   *)
-(*            rcache (the code with the proposed repair: clear_cache drops *)
-(*            them), pd (the phases dictionary: ids in insertion order)]   *)
+(*            cache (the code as it WAS before fix e29c99a: clear_cache    *)
+(*            kept the eps maps), rcache (the code with the repair, as it  *)
+(*            is now: clear_cache drops them), pd (the phases dictionary:  *)
+(*            ids in insertion order), dz (where the reference cell of a   *)
+(*            voxel comes from: "phases" = looked up in the dictionary,    *)
+(*            "maps" = an explicit dzero_unitcell map was handed over -    *)
+(*            the cells of the phases dictionary are then DECORATION)]     *)
 (*     actions MReadFrame / MReadPart (f), MAssign(way = setter | item |   *)
-(*            add_map, version)                                            *)
+(*            add_map, version), MSetDz(way = item | add_map: an explicit  *)
+(*            dzero_unitcell map is given; modelled only while no strain   *)
+(*            map is cached - add_map clears caches for "UBI" alone, :613),*)
+(*            MTouch (read U, B, UB, mt, unitcell, euler, dzero_unitcell)  *)
 (*     invariants MapExpCurrent (the property's answer mentions the        *)
 (*            current version only), MapRepairedCurrent (holds),           *)
-(*            MapAsIsCurrent (VIOLATED - cfg Strain_map_asis: read,        *)
-(*            assign, read), DzeroByKey (reference cell of a voxel is      *)
-(*            looked up by phase id, not by position in the dictionary)    *)
+(*            MapAsIsCurrent (VIOLATED by the code as it was - cfg         *)
+(*            Strain_map_asis: read, assign, read), DzeroByKey (reference  *)
+(*            cell of a voxel is looked up by phase id, not by position in *)
+(*            the dictionary), DzSourceOK (an explicit map, once given,    *)
+(*            is the reference of every later read)                        *)
 (*   HEmit prints one JSON record per finished history; the harness binds  *)
 (*   versions / states to exact deformations and replays the operations on *)
 (*   ONE real object.  Histories are drawn by `tlc -simulate` (seeded) in  *)
@@ -109,6 +141,8 @@ CONSTANTS REFS,        \* set of <<L0, <<U0n, n0>> >>
           HSTRETCHES,  \* histories: stretches (tenths) the grain object moves between
           HROTS,       \* histories: rotations (den <= 5) the grain object moves between
           HU0R,        \* histories: right-angle orientations of the reference grain object
+          HSCALES,     \* histories: scales <<n, d>> of the reference cell: a reference given / a ref_unitcell carried is k.L0
+          MTOUCHES,    \* map histories: the other computed maps a history may read (subset of MTouchAll)
           HLEN,        \* operations per grain history (the constructor included)
           PHASEDICTS,  \* map histories: phase ids in dictionary insertion order
           NVER,        \* map histories: number of distinct UBI maps
@@ -383,11 +417,16 @@ CaseOff == /\ stage = "hist" /\ ref = NONE /\ S = NONE /\ R = NONE /\ ubi = NONE
 HLast == hist[Len(hist)]
 
 \* ---------------------------------------------------------------- kind "grain"
-\* reference handed to eps_*(dzero_cell = ..): the six cell parameters (ub0 = B0, Q = U0b) or the
-\* reference grain object (ub0 = ur.B0, Q = U0b.ur^T); the code's F = ubi^T.ub0^T is then q.s.Q
+\* A reference cell is k.L0, k = <<n, d>> in HSCALES (K1 = the cell the grain was made from).  Seen from k.L0 the
+\* grain ubi = L0.U0b^T.s.q^T = (k.L0).U0b^T.(s/k).q^T has the stretch s/k and the rotation q.
+K1 == <<1, 1>>
+SDivK(A, kk) == Reduce(<<MScale(kk[2], A[1]), A[2] * kk[1]>>)                 \* A / k
+\* reference handed to eps_*(dzero_cell = ..): the six parameters of the cell k.L0 (ub0 = B0/k, Q = U0b) or the
+\* reference grain object (ubi = rs.L0.ur^T: ub0 = ur.B0/rs, Q = U0b.ur^T); the code's F = ubi^T.ub0^T is q.(s/k).Q
+RefK(st, rk, kk) == IF rk = "cell" THEN kk ELSE st.rs                        \* scale of the reference GIVEN
 GQ(st, rk) == IF rk = "cell" THEN st.base[2] ELSE SMM(st.base[2], ST(st.ur))
-GUb0(st, rk) == IF rk = "cell" THEN B0(st.base) ELSE SMM(st.ur, B0(st.base))
-GF(st, rk) == FOf(UbiOf(st.base, st.s, st.q), GUb0(st, rk))                \* finite_strain.py:61
+GUb0(st, rk, kk) == IF rk = "cell" THEN SDivK(B0(st.base), kk) ELSE SDivK(SMM(st.ur, B0(st.base)), st.rs)
+GF(st, rk, kk) == FOf(UbiOf(st.base, st.s, st.q), GUb0(st, rk, kk))          \* finite_strain.py:61
 \* polar factors of F = q.s.Q:  rotation q.Q, right stretch Q^T.s.Q, left stretch q.s.q^T
 CodeAns(f, s, q, Q, m2, fr) == IF m2 = 0 THEN NoLab
                                ELSE IF fr = "ref" THEN CodeRef(f, ConjT(Q, s), m2)
@@ -397,50 +436,82 @@ PropAns(s, q, Q, m2, fr) == IF m2 = 0 THEN NoLab
                             ELSE PropLab(s, q, m2)                              \* R.E(S).R^T
 
 \* (the first rotation is fixed - SetUbi moves on from it - so that `tlc -simulate`, which draws the
-\* initial state uniformly, starts about as many map histories as grain histories)
-HInitGrain == \E r \in HREFS, s \in HSTRETCHES :
+\* initial state uniformly, starts about as many map histories as grain histories.  d0: the grain comes out of
+\* the indexer / a dataset loader, which attach the phase's unitcell before anybody asks anything)
+HInitGrain == \E r \in HREFS, s \in HSTRETCHES, d0 \in BOOLEAN :
                  LET q == CHOOSE x \in HROTS : x[2] > 1
+                     k1 == CHOOSE kk \in HSCALES : kk # K1
+                     gd == IF d0 THEN k1 ELSE NONE
+                     rd == IF d0 THEN CHOOSE kk \in HSCALES : kk # K1 /\ (kk # k1 \/ Cardinality(HSCALES) = 2) ELSE NONE
                  IN
                  /\ hmode = "grain"
-                 /\ hst = [base |-> r, s |-> s, q |-> q, ur |-> r[2], rid |-> 1, hd |-> FALSE, dgt |-> NONE]
-                 /\ hist = << [op |-> "new", L0 |-> r[1], U0 |-> r[2], S |-> s, R |-> q] >>
+                 /\ hst = [base |-> r, s |-> s, q |-> q, ur |-> r[2], rs |-> K1, rid |-> 1, gd |-> gd, rd |-> rd,
+                           hd |-> FALSE, dgt |-> NONE]
+                 /\ hist = << [op |-> "new", L0 |-> r[1], U0 |-> r[2], S |-> s, R |-> q, gd |-> gd, rd |-> rd] >>
 
 HGo == hmode = "grain" /\ Len(hist) < HLEN
 
+\* grain.set_ubi -> clear_cache (grain.py:61-81): the carried ref_unitcell is dropped with the caches
 SetUbi == /\ HGo
           /\ \E s \in HSTRETCHES, q \in HROTS :
                 /\ <<s, q>> # <<hst.s, hst.q>>
-                /\ hst' = [hst EXCEPT !.s = s, !.q = q]
+                /\ hst' = [hst EXCEPT !.s = s, !.q = q, !.gd = NONE]
                 /\ hist' = Append(hist, [op |-> "set_ubi", S |-> s, R |-> q])
           /\ UNCHANGED <<cvars, hmode>>
 
-\* a NEW reference grain object (rid + 1), or the same object re-oriented in place by g0.set_ubi
+\* a NEW reference grain object (rid + 1; it may come with a ref_unitcell of its own, d), or the same object changed
+\* in place by g0.set_ubi (which drops what it carried): another orientation and / or another cell k.L0
 ChangeRef == /\ HGo
-             /\ \E u \in HU0R, inplace \in BOOLEAN :
-                   /\ u # hst.ur
-                   /\ hst' = [hst EXCEPT !.ur = u, !.rid = IF inplace THEN @ ELSE @ + 1]
-                   /\ hist' = Append(hist, [op |-> IF inplace THEN "reorient" ELSE "newref", U0r |-> u])
+             /\ \E u \in HU0R, kk \in HSCALES, inplace \in BOOLEAN, d \in HSCALES \cup {NONE} :
+                   /\ <<u, kk>> # <<hst.ur, hst.rs>>
+                   /\ (inplace => d = NONE)
+                   /\ hst' = [hst EXCEPT !.ur = u, !.rs = kk, !.rd = d, !.rid = IF inplace THEN @ ELSE @ + 1]
+                   /\ hist' = Append(hist, [op |-> IF inplace THEN "reorient" ELSE "newref", U0r |-> u, k |-> kk,
+                                            rd |-> d])
              /\ UNCHANGED <<cvars, hmode>>
 
-\* (`tlc -simulate` draws the ACTION first, then one of its successors: asking is split by frame so
-\* that about half of the steps of a history are questions)
-AskF(fr) == /\ HGo
-            /\ \E i \in DOMAIN HMS, rk \in {"cell", "grain"} :
-                  LET Q == GQ(hst, rk)
-                  IN  hist' = Append(hist, [op |-> "ask", m2 |-> HMS[i], frame |-> fr, rk |-> rk, Q |-> Q,
-                                            ans |-> CodeAns(GF(hst, rk), hst.s, hst.q, Q, HMS[i], fr)])
-            /\ UNCHANGED <<cvars, hmode, hst>>
-AskRef == AskF("ref")
-AskLab == AskF("lab")
+\* DECORATION: obj.ref_unitcell = unitcell(k.L0) through the public setter (grain.py:217-222; indexing.py:1421,
+\* sinograms/dataset.py:909 do this to every grain they hand out).  It is no argument of any strain request.
+Decorate == /\ HGo
+            /\ \E who \in {"g", "g0"}, kk \in HSCALES :
+                  /\ hst' = IF who = "g" THEN [hst EXCEPT !.gd = kk] ELSE [hst EXCEPT !.rd = kk]
+                  /\ hist' = Append(hist, [op |-> "decorate", who |-> who, k |-> kk])
+            /\ UNCHANGED <<cvars, hmode>>
 
-\* DeformationGradientTensor(ubi | grain, ub0 | reference grain): F is taken at construction
+\* reading a cached property / setting a bookkeeping attribute of the grain or of the reference grain
+GTOUCH == {"unitcell", "B", "U", "UB", "mt", "rmt", "name", "translation", "npks"}
+Touch == /\ HGo
+         /\ \E who \in {"g", "g0"}, w \in GTOUCH :
+               hist' = Append(hist, [op |-> "touch", who |-> who, what |-> w])
+         /\ UNCHANGED <<cvars, hmode, hst>>
+
+\* (`tlc -simulate` draws the ACTION first, then one of its successors: asking is split by frame and by the kind
+\* of reference so that a third to a half of the steps of a history are questions, as many with a reference
+\* grain as with a cell)
+AskF(fr, rk) ==
+            /\ HGo
+            /\ \E i \in DOMAIN HMS, kk \in HSCALES :
+                  /\ kk = RefK(hst, rk, kk)
+                  /\ LET Q == GQ(hst, rk)
+                     IN  hist' = Append(hist, [op |-> "ask", m2 |-> HMS[i], frame |-> fr, rk |-> rk, k |-> kk, Q |-> Q,
+                                               gd |-> hst.gd, rd |-> hst.rd,
+                                               ans |-> CodeAns(GF(hst, rk, kk), SDivK(hst.s, kk), hst.q, Q, HMS[i], fr)])
+            /\ UNCHANGED <<cvars, hmode, hst>>
+AskRef == AskF("ref", "cell")
+AskLab == AskF("lab", "cell")
+AskRefG == AskF("ref", "grain")
+AskLabG == AskF("lab", "grain")
+
+\* DeformationGradientTensor(ubi | grain, ub0 | reference grain): F is taken at construction from the arguments
+\* (the ubi / ub attributes of a grain argument, whatever else that grain carries)
 MakeDGT == /\ HGo
-           /\ \E ak \in {"array", "grain"}, bk \in {"array", "grain"}, rk \in {"cell", "grain"} :
+           /\ \E ak \in {"array", "grain"}, bk \in {"array", "grain"}, rk \in {"cell", "grain"}, kk \in HSCALES :
                  /\ (rk = "cell" => bk = "array")
-                 /\ hst' = [hst EXCEPT !.hd = TRUE, !.dgt = [s |-> hst.s, q |-> hst.q, Q |-> GQ(hst, rk),
-                                               F |-> GF(hst, rk)]]
-                 /\ hist' = Append(hist, [op |-> "dgt", ak |-> ak, bk |-> bk, rk |-> rk,
-                                          F |-> GF(hst, rk)])
+                 /\ kk = RefK(hst, rk, kk)
+                 /\ hst' = [hst EXCEPT !.hd = TRUE, !.dgt = [s |-> SDivK(hst.s, kk), q |-> hst.q, Q |-> GQ(hst, rk),
+                                               F |-> GF(hst, rk, kk)]]
+                 /\ hist' = Append(hist, [op |-> "dgt", ak |-> ak, bk |-> bk, rk |-> rk, k |-> kk,
+                                          gd |-> hst.gd, rd |-> hst.rd, F |-> GF(hst, rk, kk)])
            /\ UNCHANGED <<cvars, hmode>>
 
 AskDGTF(fr) == /\ HGo /\ hst.hd
@@ -461,15 +532,18 @@ ReadDGT == /\ HGo /\ hst.hd
                                                    ELSE <<VOf(d.s, d.q), SMM(d.q, d.Q), ConjT(d.Q, d.s)>>])
            /\ UNCHANGED <<cvars, hmode, hst>>
 
-\* every answer is the exact tensor of the state the object is in NOW (Ask / AskDGT leave hst alone,
-\* so the state after the action is the state that was asked)
+\* every answer is the exact tensor of the state the object is in NOW, seen from the reference that was GIVEN in
+\* the request (Ask / AskDGT leave hst alone, so the state after the action is the state that was asked).  The
+\* right-hand side mentions the grain's s, q, the reference's orientation and the scale k of the reference given:
+\* NOT gd, rd (what the objects carry), nor anything asked before.
 HAnswersCurrent ==
     (hmode = "grain" /\ HLast.op \in {"ask", "dask"}) =>
         LET a == HLast
-            s == IF a.op = "ask" THEN hst.s ELSE hst.dgt.s
+            s == IF a.op = "ask" THEN SDivK(hst.s, a.k) ELSE hst.dgt.s
             q == IF a.op = "ask" THEN hst.q ELSE hst.dgt.q
             Q == IF a.op = "ask" THEN GQ(hst, a.rk) ELSE hst.dgt.Q
         IN  /\ a.Q = Q
+            /\ (a.op = "ask" => a.k = RefK(hst, a.rk, a.k))
             /\ a.ans = PropAns(s, q, Q, a.m2, a.frame)
             /\ (a.m2 # 0 => IsSym(a.ans[1]))
             /\ (a.m2 # 0 => ((a.ans[1] = Z3) <=> (s[1] = T3(MScale(s[2], I3)))))
@@ -484,6 +558,18 @@ HPolarOK ==
         IN  /\ d.F = SMM(SMM(d.q, d.s), d.Q)
             /\ IsRot(rq) /\ IsSym(sq[1]) /\ PosDef(sq[1]) /\ IsSym(v[1]) /\ PosDef(v[1])
             /\ d.F = SMM(rq, sq) /\ d.F = SMM(v, rq)
+
+\* what the objects carry is tracked as the code does it: set by the setter, dropped by set_ubi, absent on a new
+\* object; a request records what was carried when it was made (the harness counts the requests whose reference
+\* differs from the carried cell - the class of defect "an attribute leaks into the request")
+HDecorTracked ==
+    hmode = "grain" =>
+        /\ hst.gd \in HSCALES \cup {NONE} /\ hst.rd \in HSCALES \cup {NONE}
+        /\ (HLast.op = "set_ubi" => hst.gd = NONE)
+        /\ (HLast.op = "reorient" => hst.rd = NONE)
+        /\ (HLast.op = "newref" => hst.rd = HLast.rd)
+        /\ (HLast.op = "decorate" => IF HLast.who = "g" THEN hst.gd = HLast.k ELSE hst.rd = HLast.k)
+        /\ (HLast.op \in {"ask", "dgt"} => HLast.gd = hst.gd /\ HLast.rd = hst.rd)
 
 \* ---------------------------------------------------------------- kind "map"
 MAPS == {"s", "c", "h", "d"}         \* eps_sample, eps_crystal, eps_hydro, eps_devia
@@ -535,10 +621,13 @@ PIDS == -1..6
 DzOf(pd, p) == IF \E i \in DOMAIN pd : pd[i] = p THEN CHOOSE i \in DOMAIN pd : pd[i] = p ELSE 0
 DzTable(pd) == [j \in 1..8 |-> DzOf(pd, j - 2)]           \* index j = phase id + 2
 
-HInitMap == \E pd \in PHASEDICTS :
+\* dzx: an explicit dzero_unitcell map is among the maps the TensorMap is built from (:751-756 takes it as it is);
+\* the cells of the phases dictionary are then decoration
+HInitMap == \E pd \in PHASEDICTS, dzx \in BOOLEAN :
                /\ hmode = "map"
-               /\ hst = [cur |-> 1, first |-> "n", cache |-> NoCache, rcache |-> NoCache, pd |-> pd]
-               /\ hist = << [op |-> "newmap", pd |-> pd, dz |-> DzTable(pd), ver |-> 1] >>
+               /\ hst = [cur |-> 1, first |-> "n", cache |-> NoCache, rcache |-> NoCache, pd |-> pd,
+                         dz |-> IF dzx THEN "maps" ELSE "phases"]
+               /\ hist = << [op |-> "newmap", pd |-> pd, dz |-> DzTable(pd), ver |-> 1, dzx |-> dzx] >>
 
 MGo == hmode = "map" /\ Len(hist) < MLEN
 
@@ -549,13 +638,14 @@ MReadIn(names) ==
                    r == Rd(f, hst.rcache, hst.cur)
                IN  /\ hst' = [hst EXCEPT !.cache = a[2], !.rcache = r[2], !.first = FirstAfter(hst.first, f)]
                    /\ hist' = Append(hist, [op |-> "read", f |-> f, exp |-> ExpTag(hst.first, f, hst.cur),
-                                            asis |-> a[1], rep |-> r[1], cur |-> hst.cur])
+                                            asis |-> a[1], rep |-> r[1], cur |-> hst.cur, dzs |-> hst.dz])
          /\ UNCHANGED <<cvars, hmode>>
 MReadFrame == MReadIn({"s", "c"})
 MReadPart == MReadIn({"h", "d"})
 
 \* T.UBI = x (setter :632-635), T["UBI"] = x (:581-583), T.add_map("UBI", x) (:612-616): all three call
-\* clear_cache (:589-593), which drops U, B, UB, mt, unitcell, euler - and, as the code is, NOT the eps maps
+\* clear_cache (:589-593), which drops U, B, UB, mt, unitcell, euler and (since fix e29c99a) the eps maps;
+\* dzero_unitcell stays: the reference does not depend on the UBI map
 MAssign == /\ MGo
            /\ \E w \in {"setter", "item", "add_map"}, v \in 1..NVER :
                  /\ v # hst.cur
@@ -563,9 +653,31 @@ MAssign == /\ MGo
                  /\ hist' = Append(hist, [op |-> "assign", way |-> w, ver |-> v])
            /\ UNCHANGED <<cvars, hmode>>
 
+\* T["dzero_unitcell"] = x / T.add_map("dzero_unitcell", x): the reference is handed over explicitly.  Modelled
+\* only while no strain map is cached (first = "n": none computed since the construction / the last UBI
+\* assignment): add_map clears caches for the name "UBI" alone (:613-616), what a strain map computed from the
+\* previous reference should show afterwards is not stated by the property.
+MSetDz == /\ MGo /\ hst.dz = "phases" /\ hst.first = "n" /\ hst.rcache = NoCache
+          /\ \E w \in {"item", "add_map"} :
+                /\ hst' = [hst EXCEPT !.dz = "maps"]
+                /\ hist' = Append(hist, [op |-> "setdz", way |-> w])
+          /\ UNCHANGED <<cvars, hmode>>
+
+\* reading one of the other computed maps (cached in self.maps: U, B, UB, mt, unitcell, euler are dropped by
+\* clear_cache; dzero_unitcell is computed from the phases dictionary once and kept)
+MTouchAll == {"U", "B", "UB", "mt", "unitcell", "euler", "dzero_unitcell"}
+MTouchNone == {}
+MTouch == /\ MGo
+          /\ \E w \in MTOUCHES : hist' = Append(hist, [op |-> "touch", what |-> w])
+          /\ UNCHANGED <<cvars, hmode, hst>>
+
 MapExpCurrent == (hmode = "map" /\ HLast.op = "read") => TagCurrent(HLast.exp, hst.cur)
 MapRepairedCurrent == (hmode = "map" /\ HLast.op = "read") => HLast.rep = HLast.exp
 MapAsIsCurrent == (hmode = "map" /\ HLast.op = "read") => HLast.asis = HLast.exp
+\* an explicit dzero_unitcell map, once given, is the reference of every later read
+DzSourceOK == (hmode = "map" /\ HLast.op = "read") =>
+                 HLast.dzs = (IF \E i \in DOMAIN hist : hist[i].op = "setdz" \/ (hist[i].op = "newmap" /\ hist[i].dzx)
+                              THEN "maps" ELSE "phases")
 DzeroByKey == hmode = "map" =>
                  /\ \A i \in DOMAIN hst.pd : DzOf(hst.pd, hst.pd[i]) = i
                  /\ \A p \in PIDS : (\A i \in DOMAIN hst.pd : hst.pd[i] # p) => DzOf(hst.pd, p) = 0
@@ -574,8 +686,8 @@ DzeroByKey == hmode = "map" =>
 HInit == /\ CaseOff
          /\ \/ ("grain" \in HKINDS /\ HInitGrain)
             \/ ("map" \in HKINDS /\ HInitMap)
-HNext == SetUbi \/ ChangeRef \/ AskRef \/ AskLab \/ MakeDGT \/ AskDGTRef \/ AskDGTLab \/ ReadDGT
-         \/ MReadFrame \/ MReadPart \/ MAssign
+HNext == SetUbi \/ ChangeRef \/ Decorate \/ Touch \/ AskRef \/ AskLab \/ AskRefG \/ AskLabG \/ MakeDGT \/ AskDGTRef \/ AskDGTLab \/ ReadDGT
+         \/ MReadFrame \/ MReadPart \/ MAssign \/ MSetDz \/ MTouch
 HSpec == HInit /\ [][HNext]_vars
 HDone == (hmode = "grain" /\ Len(hist) = HLEN) \/ (hmode = "map" /\ Len(hist) = MLEN)
 HEmit == ~HDone \/ PrintT("@@" \o ToJson([kind |-> hmode, hist |-> hist]))
@@ -590,6 +702,7 @@ HStretchT == HStretchQ \cup { Str(e, 10) : e \in { <<1,1,1,1,1,1>>, <<0,0,0,-1,-
 HRotsQ == { RotI, Perm3, Rot3(P345, A0, A0), Rot3(A0, P345n, A180) }
 HRotsT == HRotsQ \cup { Rot3(A0, A0, P345), Rot3(A270, A90, A0) }
 HU0RAll == { RotI, Perm3, Rot3(A0,A0,A90), Rot3(A180,A270,A0) }
+HScalesAll == { K1, <<11, 10>>, <<9, 10>> }       \* the harness lifts them to 501/500, 499/500 (a refined d-zero) as well
 PhaseDicts == { <<0>>, <<3>>, <<0, 1, 2>>, <<1, 2, 3>>, <<0, 2, 5>>, <<2, 1, 0>>, <<1, 0>>, <<5, 0, 2>> }
 PhaseDictsMapT == { <<0, 1>>, <<5, 0, 2>> }
 
@@ -604,6 +717,9 @@ ASSUME \A r \in HREFS : IsRot(r[2]) /\ r[2][2] = 1 /\ IsUpper(r[1]) /\ Det(r[1])
 ASSUME (\A q \in HROTS : IsRot(q) /\ q[2] \in {1, 5}) /\ (\E q \in HROTS : q[2] > 1)
 ASSUME \A u \in HU0R : IsRot(u) /\ u[2] = 1
 ASSUME \A s \in HSTRETCHES : IsSym(s[1]) /\ PosDef(s[1]) /\ s[2] = 10
+ASSUME MTOUCHES \subseteq MTouchAll
+ASSUME K1 \in HSCALES /\ (\E kk \in HSCALES : kk # K1) /\ (\A kk \in HSCALES : kk[1] > 0 /\ kk[2] > 0 /\ Gcd(kk[1], kk[2]) = 1)
+ASSUME SDivK(<<Diag(11,10,9), 10>>, <<11, 10>>) = <<Diag(11,10,9), 11>>
 ASSUME \A pd \in PHASEDICTS : /\ \A i \in DOMAIN pd : pd[i] \in 0..5
                               /\ \A i, j \in DOMAIN pd : i # j => pd[i] # pd[j]
 ASSUME HLEN >= 2 /\ MLEN >= 2 /\ NVER >= 2 /\ HKINDS \subseteq HKindsAll
